@@ -4,7 +4,7 @@ from __future__ import annotations
 import numpy as np
 import z3
 
-from symx.core import SReal, assume, cur, eq_arrays, marray, mfloat, real, reals, rv, single_path, slice_for, terms
+from symx.core import SReal, assume, cur, eq_arrays, explore, marray, mfloat, real, reals, rv, single_path, slice_for, terms
 from symx.runner import Ob
 from symx.stubs import CholeskyStub, inv_contract, shadow, sym_array, sym_full, sym_ones, sym_zeros
 
@@ -174,6 +174,50 @@ def o1_predict(rep, n):
         rep.reachable(f"tuning-exists[n={n}]", [c for c in cons if True][:0] + [s["alpha"].t == rv(0.5), s["kappa"].t == 1] + _pos(s["L"]), timeout_ms=20000)
 
 
+def replay_predict_times(d):
+    """As replay_predict, with the filter's own time and the prediction time of the counterexample (a prediction over a zero-length span included)."""
+    from resonaate.estimation.kalman.unscented_kalman_filter import UnscentedKalmanFilter
+
+    x, L, F, Q = np.array(d["x"]), np.array(d["L"]), np.array(d["F"]), np.array(d["Q"])
+    P = L @ L.T
+    f = UnscentedKalmanFilter(1, d["t0"], x, P, LinDyn(F), Q, None, False, False)
+    f.predict(d["tf"])
+    e1 = np.abs(f.pred_x - F @ x).max()
+    e2 = np.abs(f.pred_p - (F @ P @ F.T + Q)).max()
+    sc = max(1.0, np.abs(F @ P @ F.T + Q).max(), np.abs(F @ x).max())
+    return max(e1, e2) > 1e-6 * sc, {"pred_x_err": e1, "pred_p_err": e2, "t0": d["t0"], "tf": d["tf"]}
+
+
+def o1_predict_times(rep, n):
+    """The prediction equals the Kalman prediction whatever the filter time t0 and the prediction time tf >= t0 are (tf == t0 included:
+    the multiple-model filters re-predict at the current epoch)."""
+    def run():
+        chol = CholeskyStub()
+        with Env(chol):
+            f, s = make_filter(n, False, chol, tuned=False)
+            t0, tf = real("t0"), real("tf")
+            assume(t0.t >= 0, tf.t >= t0.t, tf.t <= 10 ** 7)
+            f.time = t0
+            f.predict(tf)
+        return f, s
+
+    res = explore(run, max_paths=16, recip=True)
+    if not res:
+        rep.error("reach", "no path")
+    for k, r in enumerate(res):
+        if r.exc is not None:
+            rep.error("exception", repr(r.exc))
+            continue
+        f, s = r.out
+        F, P, Q, x = s["F"], s["P"], s["Q"], s["x"]
+
+        def inputs(m, s=s):
+            return {"n": n, "x": marray(m, s["x"]), "L": marray(m, s["L"]), "F": marray(m, s["F"]), "Q": marray(m, s["Q"]), "t0": mfloat(m, z3.Real("t0")), "tf": mfloat(m, z3.Real("tf"))}
+
+        rep.prove(f"pred-any-times[n={n}]#{k}", z3.And(eq_arrays(f.pred_x, F.dot(x)), eq_arrays(f.pred_p, F.dot(P).dot(F.T) + Q)), r.constraints, linearize=True, timeout_ms=120000,
+                  inputs=inputs, replay=replay_predict_times, sample="pred_x = F x and pred_p = F P F^T + Q for every filter time t0 and prediction time tf >= t0 (zero-length span included)")
+
+
 def _pos(L):
     return [L[i, i].t > 0 for i in range(L.shape[0])]
 
@@ -338,6 +382,9 @@ def obligations(tier):
     ns = (1, 2, 3) if tier == "quick" else (1, 2, 3, 4)
     for n in ns:
         obs.append(Ob(f"O1-n{n}", (lambda n: lambda rep: o1_predict(rep, n))(n), f"predict = Kalman prediction, n={n}, symbolic tuning", 300 if n < 4 else 900))
+        if n <= 2:
+            obs.append(Ob(f"O1t-n{n}", (lambda n: lambda rep: o1_predict_times(rep, n))(n), f"predict = Kalman prediction for every filter/prediction time, n={n}", 300))
+            REPLAYS[f"O1t-n{n}"] = replay_predict_times
     cases = [(1, 1, False, None), (1, 1, True, None), (2, 1, False, None), (2, 1, True, None), (2, 2, False, None), (2, 2, True, None), (2, 2, False, 1), (2, 2, True, 1)]
     if tier == "thorough":
         cases += [(3, 1, False, None), (3, 1, True, None), (3, 2, False, 1), (3, 2, True, 1)]
